@@ -248,3 +248,54 @@ def key_family(repo):
                     rows.append(f"  ({lean_str(reg_name)}, {lean_str(alg)}, {lean_str(type(reg[alg]).__name__)}, {lean_str(kty)}, {lean_str(form)}, {lean_str(outcome)})")
     return ("namespace Generated.KeyFamily\n\n/-- (registry, alg, implementing class, key kind, key form, outcome of `prepare_key`) -/\n"
             "def prepareKey : List (String × String × String × String × String × String) := [\n" + ",\n".join(rows) + "]\n\nend Generated.KeyFamily\n")
+
+
+@emitter("KeyOps.lean")
+def key_ops(repo):
+    """C02: which key operation every registered algorithm asks the CALLER'S key to permit (Key.check_key_op), per side — observed by running
+    one sign / verify / encrypt / decrypt with a recording hook. `use` and `key_ops` restrictions are enforced by exactly these checks."""
+    from authlib.jose import JsonWebSignature, JsonWebEncryption, JsonWebKey, OctKey
+    from authlib.jose.rfc7517 import base_key
+    keys = {"oct": lambda n=32: OctKey.import_key(b"k" * n), "RSA": lambda: JsonWebKey.generate_key("RSA", 2048, is_private=True),
+            "EC": lambda crv="P-256": JsonWebKey.generate_key("EC", crv, is_private=True), "OKP": lambda: JsonWebKey.generate_key("OKP", "Ed25519", is_private=True)}
+    rec = []
+    orig = base_key.Key.check_key_op
+
+    def hook(self, operation):
+        rec.append((id(self), operation))
+        return orig(self, operation)
+    rows = []
+    base_key.Key.check_key_op = hook
+    try:
+        J = JsonWebSignature()
+        for alg in sorted(J.ALGORITHMS_REGISTRY):
+            a = J.ALGORITHMS_REGISTRY[alg]
+            cls = type(a).__name__
+            if cls == "NoneAlgorithm":
+                continue
+            k = {"HMACAlgorithm": keys["oct"], "RSAAlgorithm": keys["RSA"], "RSAPSSAlgorithm": keys["RSA"], "EdDSAAlgorithm": keys["OKP"]}.get(cls) or (lambda: keys["EC"](a.curve))
+            key = k()
+            del rec[:]
+            tok = J.serialize_compact({"alg": alg}, b"x", key)
+            sign_ops = [op for i, op in rec if i == id(key)]
+            del rec[:]
+            J.deserialize_compact(tok, key)
+            rows.append(("jws", alg, cls, sign_ops, [op for i, op in rec if i == id(key)]))
+        E = JsonWebEncryption()
+        for alg in sorted(E.ALG_REGISTRY):
+            a = E.ALG_REGISTRY[alg]
+            cls = type(a).__name__
+            if cls == "ECDH1PUAlgorithm":
+                continue          # draft, needs a sender key; not in the property's scope
+            key = keys["RSA"]() if cls == "RSAAlgorithm" else keys["EC"]() if cls == "ECDHESAlgorithm" else keys["oct"](16 if alg == "dir" else int(alg[1:4]) // 8)
+            del rec[:]
+            tok = E.serialize_compact({"alg": alg, "enc": "A128GCM"}, b"x", key)
+            enc_ops = [op for i, op in rec if i == id(key)]
+            del rec[:]
+            E.deserialize_compact(tok, key)
+            rows.append(("jwe", alg, cls, enc_ops, [op for i, op in rec if i == id(key)]))
+    finally:
+        base_key.Key.check_key_op = orig
+    body = ",\n".join(f"  ({lean_str(r)}, {lean_str(alg)}, {lean_str(cls)}, {lean_str_list(a)}, {lean_str_list(b)})" for r, alg, cls, a, b in rows)
+    return ("namespace Generated.KeyOps\n\n/-- (registry, alg, implementing class, operations checked on the caller's key when producing, … when consuming) -/\n"
+            "def keyOps : List (String × String × String × List String × List String) := [\n" + body + "]\n\nend Generated.KeyOps\n")
